@@ -605,7 +605,7 @@ pub fn check_module(m: &dr::Module, st: &mut Stats, decoded: &dyn Fn() -> String
     }
     st.sample(|| {
         let mut t = text.clone();
-        t.truncate(700);
+        clip(&mut t, 700);
         t
     });
     Ok(())
